@@ -19,7 +19,9 @@ differential (C18), a pong (C08), an RSV1 rule of the message state (C13)),
 through usage outside the documented contract of `wsflate.Writer`, §8;
 C16-m32 is `ws.ReadHeader` answering `io.EOF` for a cut inside a header with
 no message open, which only has to be an error; C19-m51 changes how messages
-are cut into fragments and nothing a session observes). Waves 5-9 asked for
+are cut into fragments and nothing a session observes; C05-m65 wraps a protocol
+error with %w, which errors.As and errors.Is - the way the checks classify
+errors - still recognise). Waves 5-9 asked for
 refactorings, option combinations, transport or scheduling conditions, broken
 doc-comment guarantees, cleanup/resource slips, arithmetic and boundary slips,
 ordering of side effects, option-field defaults and sibling entry points that
@@ -32,10 +34,16 @@ compatibility tolerance, shared state, callee-side changes in low-level
 helpers, modernisation slips, new configuration knobs, observability hooks,
 bug fixes gone wrong, ordering and representation changes, corners of the
 API, less-travelled functions around the anchors, and the library's use of
-its dependencies' contracts; 5, 6, 5, 9, 4, 2, 3 and (wave 17) the number given
-in the last row group of the table were missed on first contact, the others
-were caught by the checks as they stood - many of the later proposals repeat
-earlier ones, which is itself a sign of saturation. Every miss led to an
+its dependencies' contracts; 5, 6, 5, 9, 4, 2, 3 and 8 were missed on first
+contact, the others were caught by the checks as they stood - many of the
+later proposals repeat earlier ones, which is itself a sign of saturation, and
+the theme of wave 17 (what io, bufio, bytes, net/http, compress/flate, the
+pools and context promise and do not promise) shows that a new angle still
+finds gaps: frames of 4 GiB and more, a hundred control frames in one gap,
+temporary errors that hand over bytes, destinations without ReadFrom,
+`Connection: close` rejections, bare-LF responses, spare capacity of returned
+slices. Two of its scenarios failed on the *unchanged* tree and became
+defects 13 and 14 of §7. Every miss led to an
 extension of a workload or fault mix (never to a loosened oracle); they are
 named in the note column and in §8. Three misses of waves 3-9 and five of
 waves 10-16 were oracle or harness faults of this work rather than gaps in
